@@ -647,6 +647,85 @@ def enumerate_settings(thorough, rng):
             yield (t, v, rng.choice(["k", "g.k", "dc.k"]), rng.random() < 0.2, True)
 
 
+# ---------------------------------------------------------------------------------------------- after a rejected parse
+class HBase:
+    def __init__(self, x: int = 0):
+        self.x = x
+
+
+class HSub(HBase):
+    def __init__(self, x: int = 0, y: int = 0):
+        super().__init__(x)
+
+
+def after_rejection_part(h, tmp):
+    """The channels agree on a parser that has just rejected an input, exactly as they do on a fresh one: what one parse left behind
+    (an aborted namespace, a context variable) must not reach some channels of the next parse and not others."""
+    from jsonargparse import ArgumentParser
+
+    def make():
+        p = ArgumentParser(exit_on_error=False, env_prefix="APP")
+        p.add_argument("--cfg", action="config")
+        p.add_argument("--model", type=HBase, default={"class_path": __name__ + ".HBase"})
+        p.add_argument("--n", type=int, default=0)
+        p.add_argument("--l", type=List[int], default=[1])
+        return p
+
+    with open(os.path.join(tmp, "bad.json"), "w") as f:
+        f.write(json.dumps({"n": "not-a-number"}))
+    sub = __name__ + ".HSub"
+    rejections = {
+        "class-option-then-a-config-with-a-bad-value": lambda p: p.parse_args(["--model=" + sub, "--model.y=5", "--l+=2", "--cfg=bad.json"]),
+        "class-option-then-a-config-string-with-an-unknown-key": lambda p: p.parse_args(["--model=" + sub, "--n=3", '--cfg={"zzq": 1}']),
+        "bad-value-after-good-ones-on-argv": lambda p: p.parse_args(["--model=" + sub, "--l+=2", "--n=x"]),
+        "bad-config-text": lambda p: p.parse_string(json.dumps({"model": {"class_path": sub, "init_args": {"y": "bad"}}})),
+        "bad-object": lambda p: p.parse_object({"model": {"class_path": sub}, "n": "x"}),
+    }
+    settings = {"init_args-only": {"model": {"init_args": {"x": 1}}}, "append": {"l+": [5]}, "plain": {"n": 4}}
+
+    def deliveries(p, doc):
+        out = {}
+        with open(os.path.join(tmp, "ar.json"), "w") as f:
+            f.write(json.dumps(doc))
+        runs = {"cfgfile": lambda: p.parse_args(["--cfg=ar.json"]), "cfgstr": lambda: p.parse_args(["--cfg=" + json.dumps(doc)]), "string": lambda: p.parse_string(json.dumps(doc)),
+                "path": lambda: p.parse_path("ar.json"), "object": lambda: p.parse_object(json.loads(json.dumps(doc)))}
+        for ch, fn in runs.items():
+            try:
+                with quiet():
+                    r = fn().clone()
+                r.pop("cfg", None)
+                out[ch] = ["ok", norm(r)]
+            except BaseException:  # noqa
+                out[ch] = ["rej"]
+        return out
+
+    cwd = os.getcwd()
+    os.chdir(tmp)
+    try:
+        for sname, doc in settings.items():
+            fresh = deliveries(make(), doc)
+            for rname, reject in rejections.items():
+                p = make()
+                try:
+                    with quiet():
+                        reject(p)
+                    rejected = False
+                except BaseException:  # noqa
+                    rejected = True
+                if not rejected:
+                    h.note("after-rejection: the input %r was not rejected; case skipped" % rname)
+                    continue
+                used = deliveries(p, doc)
+                differ = sorted(ch for ch in used if json.dumps(used[ch], sort_keys=True, default=str) != json.dumps(fresh[ch], sort_keys=True, default=str))
+                h.check(not differ, "c05:after-a-rejected-parse:%s:%s:channels-that-answer-differently:%s" % (rname, sname, ",".join(differ)),
+                        "after the rejected parse, %s answer differently from a fresh parser (and so from the other channels) for %r" % (differ, doc),
+                        {"parser": "--cfg (config), --model: HBase = HBase, --n: int = 0, --l: List[int] = [1]", "rejected first": rname, "then": doc,
+                         "fresh": {ch: fresh[ch] for ch in differ}, "used": {ch: used[ch] for ch in differ}})
+                h.nontrivial(("after-rejection", rname, sname))
+    finally:
+        os.chdir(cwd)
+
+
 def main():
     h = Harness("b05_channels", rule="one evaluation = one (type, value, key position) setting delivered through every planned channel/mode/spelling and compared "
                 "within its scope (1 scope, or 2 for settings whose command line text is ambiguous); distinct non-trivial = distinct setting; a setting "
@@ -671,6 +750,9 @@ def main():
             collect(h, pool.imap(run_chunk, chunks), stats)
     else:
         collect(h, map(run_chunk, chunks), stats)
+    import tempfile
+    with tempfile.TemporaryDirectory(prefix="b05_ar_") as artmp:
+        after_rejection_part(h, artmp)
     h.note("deliveries (single parses): %(deliveries)d, accepted: %(accepted)d; settings accepted by every channel: %(all_accept)d, rejected by every channel: %(all_reject)d" % stats)
     leaves, d1, d2 = terms(h.thorough)
     sys.exit(h.finish(exhaustive=True, bound="types: %d leaves, %d of depth 1 (Optional, List, Dict[str,.], Tuple[.,...], Set of every leaf; 6 fixed tuples; every ordered pair of "
@@ -680,7 +762,8 @@ def main():
                       "parser_mode yaml (all channels) / json / omegaconf (%s) (+ jsonnet on argv and parse_string for %s)%s; several keys in one "
                       "document: every non-empty subset of {G.k, G.o, G.h.z} (G a dotted group / a dataclass group) x every spelling of every key (each dot splits "
                       "or stays inside a mapping key) x every order of the keys, through parse_string, parse_object, --cfg string (yaml, json, omegaconf), "
-                      "--cfg file, parse_path, env config (yaml), parse_string (jsonnet), against the same options on the command line"
+                      "--cfg file, parse_path, env config (yaml), parse_string (jsonnet), against the same options on the command line; 3 settings through 5 config-side "
+                      "channels on a parser that has just rejected one of 5 inputs, against a fresh parser"
                       % (len(leaves), len(d1), len(d2), len(NULL_TYPES), len(TRICKY),
                          ", dotted group and dataclass group" if h.thorough else " (every setting), dotted group and dataclass group (every fourth setting each)",
                          "all channels" if h.thorough else "argv, parse_string, parse_object at the flat key",
